@@ -76,6 +76,11 @@ CLAIMS = {
          "the conversion functions cover the numeric tower; float text form tests nan/inf before Go formatting and does not detour through a machine integer; an integer limit used as a float bound is exactly representable or excluded; the remainder fix-up depends on the divisor's sign; BigInt.Float's threshold cannot reach +Inf. "
          "Does not decide: IEEE results, exactness of int/float comparison (known to be lossy for |n| > 2**53: convertToFloat rounds), shortest round-trip text, correctness of round() digits, sum/min/max folding.",
          "DESIGN.md §4 C15"),
+ "C14": ("per-function unit inference (character counts vs byte offsets) over the typed AST of the string code; writer/reader escape-table agreement; constant evaluation",
+         "Decides: Go string slices/indexes use byte offsets only (or sit under an ASCII guard), String.pos/slice receive character positions only, the two index spaces are never added, positions returned to Python count characters, a one-byte window stands for a character only under an ASCII guard; "
+         "every escape form repr writes is decoded by the literal reader with the same width; chr() rejects exactly from 0x110000; the one-element tuple repr has its comma. "
+         "Does not decide: the results of search/split/strip/replace for all strings, comparison order, the full repr/eval round trip for every value (floats and nested containers are values), normalisation of negative start/end in count/find.",
+         "DESIGN.md §4 C14"),
 }
 _todo = "rules for this property are designed (DESIGN.md §4) but not yet implemented in this revision of the checker"
-NA = {p: _todo for p in ["C14","C16"]}
+NA = {p: _todo for p in ["C16"]}
